@@ -249,8 +249,9 @@ func (b *backend) close() {
 // ---- one case ----
 
 type hresult struct {
-	events  [][]int
-	invalid string
+	events    [][]int
+	invalid   string
+	stalledAt int // -1, or the index of the first probe the monitor never made
 }
 
 func runHealthCase(c hcase, ip string, tm htiming) hresult {
@@ -284,15 +285,21 @@ func runHealthCase(c hcase, ip string, tm htiming) hresult {
 	mon.Start()
 	defer mon.Stop()
 
-	res := hresult{}
+	res := hresult{stalledAt: -1}
 	taken := 0
 	for i := range c.probes {
 		// wait until probe i has been processed
 		if visible {
 			select {
 			case <-b.seen:
-			case <-time.After(3 * time.Second):
-				return hresult{invalid: fmt.Sprintf("probe %d never reached the backend", i)}
+			case <-time.After(tm.interval*10 + tm.timeout + time.Second):
+				// the monitor has stopped probing: that is an observation, not a set-up problem.  The
+				// remaining probes are recorded with the marker 9 ("no probe was made").
+				for len(res.events) < len(c.probes) {
+					res.events = append(res.events, []int{9})
+				}
+				res.stalledAt = i
+				return res
 			}
 		} else {
 			deadline := time.Now().Add(tm.timeout + tm.interval + 2*time.Second)
@@ -659,6 +666,12 @@ func runHealth(cfg *hx.RunCfg) error {
 			}
 		}
 		dist[fmt.Sprintf("callbacks:%d", fired)]++
+		if r.stalledAt >= 0 {
+			failures = append(failures, map[string]any{"key": "health-monitor:stopped-probing",
+				"what": fmt.Sprintf("real health.Monitor: no probe %d was made within ten intervals (after outcomes %v); the monitor has stopped", r.stalledAt, c.probes[:r.stalledAt]),
+				"case": line})
+			continue
+		}
 		for _, v := range healthViolations(c, r.events) {
 			key := "health-monitor:" + strings.SplitN(v, ":", 2)[0]
 			if strings.Contains(v, "withdrawn after") {
